@@ -5,7 +5,7 @@ tail of tdxFwParser.parse (ovmf/tdx_data.go), and of the three exported entry po
 writers are the C18 codecs (Model/Codecs.lean).  Core-only.
 -/
 namespace GceTcb.TdxHob
-open GceTcb GceTcb.Codec GceTcb.Codecs GceTcb.TdxGuidTable GceTcb.Intervals GceTcb.TdxMeta
+open GceTcb GceTcb.Codec GceTcb.Codecs GceTcb.Intervals GceTcb.TdxMeta
 
 def baseAttrs : Nat := 7                  -- go: ovmf.tdhobBaseAttributes (present | initialized | tested)
 def needsEarlyAccept : Nat := 0x10000000  -- go: abi.EFIResourceAttributeNeedsEarlyAccept
